@@ -23,6 +23,8 @@ type RangeLoop struct {
 	next *RangeLoop
 	c    uint
 	w    io.Writer
+	// Error caught inside the iteration.
+	err error
 	// Key buffer. Every loop in the nest needs own one, otherwise nested loop overwrites the key of the parent.
 	buf []byte
 }
@@ -68,9 +70,14 @@ func (rl *RangeLoop) Iterate() inspector.LoopCtl {
 	for i := 0; i < len(child); i++ {
 		ch := &child[i]
 		err = rl.tpl.writeNode(rl.w, ch, rl.ctx)
-		if err == ErrBreakLoop || err == ErrContLoop {
+		if err != nil {
 			break
 		}
+	}
+	if err != nil && err != ErrBreakLoop && err != ErrContLoop {
+		// Any other error (including interrupt signal) must reach the caller.
+		rl.err = err
+		return inspector.LoopCtlBrk
 	}
 	// Handle break/lazybreak cases: the instruction (or a child loop) left the number of loops to end in brkD.
 	// This loop is one of them.
@@ -91,6 +98,7 @@ func (rl *RangeLoop) Reset() {
 		crl.tpl = nil
 		crl.c = 0
 		crl.w = nil
+		crl.err = nil
 		crl = crl.next
 	}
 }
